@@ -157,7 +157,7 @@ func (s *QSeq) String() string {
 // Additional sequence will be clipped.
 func (s *QSeq) Add(n ...seq.Sequence) error {
 	for i := s.Start(); i < s.End(); i++ {
-		s.Seq[i] = append(s.Seq[i], s.column(n, i)...)
+		s.Seq[i-s.Offset] = append(s.Seq[i-s.Offset], s.column(n, i)...)
 	}
 	for i := range n {
 		s.SubAnnotations = append(s.SubAnnotations, *n[i].CloneAnnotation())
